@@ -237,8 +237,8 @@ fn rvalue_json<'tcx>(tcx: TyCtxt<'tcx>, body: &mir::Body<'tcx>, rv: &Rvalue<'tcx
     }
 }
 
-fn body_json<'tcx>(tcx: TyCtxt<'tcx>, krate: &str, did: rustc_hir::def_id::DefId, kind: DefKind, body: &mir::Body<'tcx>) -> String {
-    let fname = dps(tcx, did);
+fn body_json<'tcx>(tcx: TyCtxt<'tcx>, krate: &str, did: rustc_hir::def_id::DefId, kind: DefKind, body: &mir::Body<'tcx>, suffix: &str) -> String {
+    let fname = format!("{}{}", dps(tcx, did), suffix);
     let mut s = String::new();
     let vis = if matches!(kind, DefKind::Fn | DefKind::AssocFn) {
         if tcx.visibility(did).is_public() { "pub" } else { "priv" }
@@ -580,7 +580,14 @@ impl rustc_driver::Callbacks for Cb {
                     let _ = d;
                 }
             }
-            out.push_str(&body_json(tcx, &krate, did, kind, body));
+            out.push_str(&body_json(tcx, &krate, did, kind, body, ""));
+            // promoted constants of this body (e.g. `&MAX_DIFF`, `&[..]` literals)
+            let promoted = &tcx.mir_promoted(ldid).1;
+            if !promoted.is_stolen() {
+                for (pi, pb) in promoted.borrow().iter_enumerated() {
+                    out.push_str(&body_json(tcx, &krate, did, DefKind::Const { is_type_const: false }, pb, &format!("::promoted[{}]", pi.index())));
+                }
+            }
         }
         // meta after the bodies: some of its queries (async fn signatures) steal coroutine MIR
         out.push_str(&meta_json(tcx, &krate));
